@@ -63,8 +63,11 @@ elif op == "mol2-roundtrip":
     m.connect(2, 1, btype=ml.BondType.Aromatic)
     m.connect(0, 3)
     keep = []
-    for cls, shared in ((ml.Molecule, False), (ml.Structure, False), (ml.Molecule, True), (ml.Structure, True)):
+    for cls, shared, nm in ((ml.Molecule, False, None), (ml.Structure, False, None), (ml.Molecule, True, None), (ml.Structure, True, None),
+                            (ml.Molecule, False, "ligand 7"), (ml.Structure, False, "water TIP3P")):
         src = cls(m)
+        if nm is not None:
+            src.name = nm                      # the name is a whole line of the file: it may contain blanks
         if shared:
             # history: some atoms of the molecule were also handed to another (non-copying) container, which re-points their parent
             keep.append(ml.Promolecule(src.atoms[1:3]))
@@ -78,6 +81,8 @@ elif op == "mol2-roundtrip":
             bad.append(f"{cls.__name__}: name/elements/labels differ after the round trip")
         if not np.allclose(r.coords, src.coords, atol=1e-6):
             bad.append(f"{cls.__name__}: coordinates differ")
+        if cls is ml.Molecule and not np.allclose(r.atomic_charges, src.atomic_charges, atol=1e-3):
+            bad.append(f"{cls.__name__} named {src.name!r}: partial charges {np.round(src.atomic_charges, 3).tolist()} read back as {np.round(r.atomic_charges, 3).tolist()}")
         if [(src.atoms.index(b.a1), src.atoms.index(b.a2), b.btype) for b in src.bonds] != [(r.atoms.index(b.a1), r.atoms.index(b.a2), b.btype) for b in r.bonds]:
             bad.append(f"{cls.__name__}: bond list differs")
         if r.dumps_mol2() != txt:
